@@ -4,6 +4,11 @@
  *   ws|ws0   <opt> <stream> <cuts>      WebSocket server session; opt bit 0: a second (TCP) session
  *                                       of the same context receives a message between any two
  *                                       arrivals (its coap_read_session call uses the same stack)
+ *   wsc|wsc0 <opt> <stream> <cuts>      WebSocket CLIENT session (frames from the server are not
+ *                                       masked): the driver owns the listening socket, the library
+ *                                       connects (connect() is made to report EINPROGRESS so that the
+ *                                       WS host can be set before the handshake is sent), the PRNG is
+ *                                       deterministic, so the client's key is 00 01 .. 0f
  *   tcpconsts | wsconsts | tcpsize <hdr> | tcpmaxrcv <mtu>
  *
  * Per case: fresh context, TCP endpoint on a unix-domain stream socket, a raw client socket
@@ -92,6 +97,23 @@ ssize_t __wrap_coap_socket_read(coap_socket_t *sock, uint8_t *data, size_t data_
   scr_pos += n;
   if (n < data_len) sock->flags &= ~COAP_SOCKET_CAN_READ;
   return (ssize_t)n;
+}
+
+/* connect() of the library's client socket: really connect, but report EINPROGRESS */
+static int fake_inprogress;
+int __real_connect(int fd, const struct sockaddr *a, socklen_t l);
+int __wrap_connect(int fd, const struct sockaddr *a, socklen_t l) {
+  int r = __real_connect(fd, a, l);
+  if (r == 0 && fake_inprogress) {
+    errno = EINPROGRESS;
+    return -1;
+  }
+  return r;
+}
+
+static int det_prng(void *buf, size_t len) {
+  for (size_t i = 0; i < len; i++) ((uint8_t *)buf)[i] = (uint8_t)i;
+  return 1;
 }
 
 /* coap_ws_close waits for the peer's Close with select() on the session socket: readable iff
@@ -266,12 +288,8 @@ static int connect_to(const char *path) {
 static int aux_fd = -1;
 static char aux_path[108];
 
-static int setup(long mtu, coap_proto_t proto) {
-  coap_address_t addr;
-  coap_endpoint_t *ep;
+static int setup_ctx(long mtu) {
   coap_resource_t *r;
-  struct epoll_event e;
-  int fd;
   static const coap_request_t methods[] = { COAP_REQUEST_GET, COAP_REQUEST_POST, COAP_REQUEST_PUT,
                                             COAP_REQUEST_DELETE, COAP_REQUEST_FETCH,
                                             COAP_REQUEST_PATCH, COAP_REQUEST_IPATCH };
@@ -288,6 +306,53 @@ static int setup(long mtu, coap_proto_t proto) {
   for (size_t i = 0; i < sizeof(methods) / sizeof(methods[0]); i++)
     coap_register_request_handler(r, methods[i], h_req);
   coap_add_resource(ctx, r);
+  return 0;
+}
+
+/* client session towards a listening socket owned by the driver; returns the accepted fd */
+static int listen_fd = -1;
+static int setup_client(void) {
+  coap_address_t addr;
+  struct sockaddr_un sa;
+  struct epoll_event e;
+  coap_session_t *s;
+  coap_str_const_t host = { 9, (const uint8_t *)"localhost" };
+  int fd;
+  if (setup_ctx(0) < 0) return -1;
+  unlink(sock_path);
+  listen_fd = socket(AF_UNIX, SOCK_STREAM, 0);
+  memset(&sa, 0, sizeof(sa));
+  sa.sun_family = AF_UNIX;
+  strncpy(sa.sun_path, sock_path, sizeof(sa.sun_path) - 1);
+  if (bind(listen_fd, (struct sockaddr *)&sa, sizeof(sa)) < 0 || listen(listen_fd, 2) < 0) return -2;
+  coap_address_set_unix_domain(&addr, (const uint8_t *)sock_path, strlen(sock_path));
+  fake_inprogress = 1;
+  s = coap_new_client_session(ctx, NULL, &addr, COAP_PROTO_WS);
+  fake_inprogress = 0;
+  if (!s) return -3;
+  cur = s;
+  cur_sock = &s->sock;
+  fd = accept(listen_fd, NULL, NULL);
+  if (fd < 0) return -4;
+  coap_ws_set_host_request(s, &host);
+  memset(&e, 0, sizeof(e));
+  e.events = EPOLLOUT;
+  e.data.ptr = cur_sock;
+  coap_io_do_epoll(ctx, &e, 1);          /* connect completes -> coap_ws_establish -> GET written */
+  if (!cur_sock || cur_sock->session != cur) { close(fd); return -5; }
+  /* The client has not sent a request: libcoap would hold back (coap_client_delay_first, 5 s of
+   * real time) whatever it has to send in answer to a request from the server until "the first
+   * exchange" is over.  Not part of the receive path under test. */
+  s->doing_first = 0;
+  return fd;
+}
+
+static int setup(long mtu, coap_proto_t proto) {
+  coap_address_t addr;
+  coap_endpoint_t *ep;
+  struct epoll_event e;
+  int fd;
+  if (setup_ctx(mtu) < 0) return -1;
   unlink(sock_path);
   coap_address_set_unix_domain(&addr, (const uint8_t *)sock_path, strlen(sock_path));
   ep = coap_new_endpoint(ctx, &addr, proto);
@@ -316,6 +381,7 @@ static int setup(long mtu, coap_proto_t proto) {
   return fd;
 }
 
+static int client_mode;
 static void run_stream(coap_proto_t proto) {
   long mtu = proto == COAP_PROTO_TCP ? atol(vtok[1]) : 0;
   size_t n, pos = 0;
@@ -324,11 +390,11 @@ static void run_stream(coap_proto_t proto) {
   int st = 0, fd;
   cur = NULL; cur_sock = NULL; scr_buf = NULL; scr_len = scr_pos = 0; scr_eof = 0;
   aux = NULL; aux_sock = NULL; aux_fd = -1; n_events = 0;
-  want_aux = proto != COAP_PROTO_TCP && (atol(vtok[1]) & 1);
+  want_aux = !client_mode && proto != COAP_PROTO_TCP && (atol(vtok[1]) & 1);
   n_reads = 0; n_writes = 0; wr_hash = 0x811c9dc5u; closed_seen = 0; obs_items = 0;
   obs = open_memstream(&obs_mem, &obs_sz);
   evl = open_memstream(&evl_mem, &evl_sz);
-  fd = setup(mtu, proto);
+  fd = client_mode ? setup_client() : setup(mtu, proto);
   if (fd < 0) {
     printf("ERROR setup %d\n", fd);
   } else {
@@ -350,6 +416,7 @@ static void run_stream(coap_proto_t proto) {
     close(fd);
   }
   if (aux_fd >= 0) close(aux_fd);
+  if (listen_fd >= 0) { close(listen_fd); listen_fd = -1; }
   if (ctx) coap_free_context(ctx);
   ctx = NULL; cur = NULL; cur_sock = NULL; aux = NULL; aux_sock = NULL;
   fclose(obs); fclose(evl);
@@ -363,6 +430,7 @@ static void run_stream(coap_proto_t proto) {
 int main(void) {
   signal(SIGPIPE, SIG_IGN);
   coap_startup();
+  coap_set_prng(det_prng);
   coap_set_log_level(getenv("VERIF_LOG") ? (coap_log_t)atoi(getenv("VERIF_LOG")) : COAP_LOG_EMERG);
   snprintf(sock_path, sizeof(sock_path), "/var/tmp/verif.5.%ld", (long)getpid());
   snprintf(aux_path, sizeof(aux_path), "/var/tmp/verif.5.%ldb", (long)getpid());
@@ -370,6 +438,11 @@ int main(void) {
     if (vntok == 0) { puts(""); continue; }
     if ((!strcmp(vtok[0], "tcp") || !strcmp(vtok[0], "tcp0")) && vntok == 4) run_stream(COAP_PROTO_TCP);
     else if ((!strcmp(vtok[0], "ws") || !strcmp(vtok[0], "ws0")) && vntok == 4) run_stream(COAP_PROTO_WS);
+    else if ((!strcmp(vtok[0], "wsc") || !strcmp(vtok[0], "wsc0")) && vntok == 4) {
+      client_mode = 1;
+      run_stream(COAP_PROTO_WS);
+      client_mode = 0;
+    }
     else if (!strcmp(vtok[0], "wsconsts"))
       printf("httpbuf=%zu maxfs=%d rxbuf=%d\n", sizeof(((coap_ws_state_t *)0)->http_hdr), (int)COAP_MAX_FS,
              (int)COAP_RXBUFFER_SIZE);
